@@ -119,6 +119,7 @@ M("c09-border-colour-from-bg", ["C09"], (TL, "                % (int2name(i), he
 M("c10-revert-shared-defaults-fix", ["C10"], (TL, "        if not (options and \"scale\" in options):\n            self.options[\"scale\"] = DEFAULT_OPTIONS[\"scale\"].copy()\n        self.options[\"labella\"] = dict(self.options[\"labella\"])\n", ""))
 M("c10-class-level-nodes-cache", ["C10"], (TL, "    def get_nodes(self):\n        nodes = []\n", "    _cache = {}\n\n    def get_nodes(self):\n        key = (len(self.items), self.direction)\n        if key in Timeline._cache:\n            return Timeline._cache[key]\n        nodes = Timeline._cache.setdefault(key, [])\n"))
 M("c10-latex-defaults-in-place", ["C10"], (TL, "        latex_opts = {k: v for k, v in DEFAULT_OPTIONS[\"latex\"].items()}", "        latex_opts = DEFAULT_OPTIONS[\"latex\"]"))
+M("c09-tikz-dot-radius-as-diameter", ["C09"], (TL, "(str(2 * self.options[\"dotRadius\"]), ID)", "(str(self.options[\"dotRadius\"]), ID)"))
 M("c11-revert-zero-width-fix", ["C11", "C04"], (DI, "            if node.idealLeft() < node.idealRight():\n                iTree.addi(node.idealLeft(), node.idealRight(), data=node)\n", "            iTree.addi(node.idealLeft(), node.idealRight(), data=node)\n"))
 M("c11-revert-options-none-fix", ["C11"], (TL, "        if options is None:\n            options = {}\n", ""))
 M("c11-revert-degenerate-fix", ["C11"], (SC, "    b = (b - a) or float(\"inf\")\n    return lambda x: (x - a) / b\n", "    return lambda x: (x - a) / (b - a)\n"))
